@@ -10,6 +10,7 @@ system to idle and checks the property text on it.
 from __future__ import annotations
 
 import asyncio
+import copy
 import itertools
 import logging
 
@@ -18,7 +19,8 @@ from common import Ctx, Failure, cbool, clist, cnat, copt, corpus_cases, cpair, 
 COQ_TARGETS = ["props/P_C16.vo", "corr/Corr_C16.vo"]
 PROOF_FILES = ["proofs/Loop_proofs.v"]
 RULE = ("histories of offer(key, version, declared dependencies) / delete(key) / yield (= one event-loop turn) "
-        "over 3-4 resources with acyclic declarations (a resource depends only on later ones), versions drawn "
+        "over 3-4 resources of TWO kinds that share their names (key i = kind i mod 2, name r<i div 2>) "
+        "with acyclic declarations (a resource depends only on later ones), versions drawn "
         "from a small pool so that offers are cache hits as well as replacements, and 0-3 yields after every "
         "operation: random histories, the delete-and-re-offer regression shapes, and (thorough tier) ALL "
         "placements of 0..3 yields between the operations of base histories of <= 5 operations; every prefix "
@@ -40,7 +42,10 @@ ASSUMPTIONS = [
     "the order in which notify_subscribers iterates over a set of subscribers is arbitrary (parameter `ord` of "
     "the model; the theorems hold for every order, the correspondence uses the observed one)",
 ]
-TRUSTED = ["the harness's bookkeeping of generations (a counter per resource, bumped by the test preparer and on "
+TRUSTED = ["the harness's preparers consume (deeply mutate) the spec object they are handed, as koreo's real preparers "
+           "do, after comparing it with the spec that was offered for the cached version; the spec kept in the cache "
+           "entry is compared with it after every operation (oracle only: the model does not carry specs)",
+           "the harness's bookkeeping of generations (a counter per resource, bumped by the test preparer and on "
            "delete) and the strictly increasing clock shim installed as koreo.cache.time / koreo.registry.time",
            "registry.notify_subscribers is wrapped (not altered) to record the iteration order of the subscriber set"]
 
@@ -56,8 +61,25 @@ class _Meta(type):
         return 0x5EED
 
 
-class K(metaclass=_Meta):
-    """resource class used as Resource.resource_type"""
+class KA(metaclass=_Meta):
+    """first resource kind (Resource.resource_type)"""
+
+
+class _MetaB(type):
+    def __hash__(cls):
+        return 0xB00B5
+
+
+class KB(metaclass=_MetaB):
+    """second resource kind: resources of different kinds may share a name"""
+
+
+KINDS = (KA, KB)
+
+
+def kind_of(i):
+    """key i of the universe is the resource (kind i mod 2, name r<i div 2>)"""
+    return KINDS[i % 2]
 
 
 class Name(str):
@@ -98,29 +120,61 @@ class Run:
         self.completed = 0     # ops completed
 
 
+def make_spec(k, v, deps):
+    """the definition offered for key k at version v: declared dependencies plus nested material for the
+    preparer to chew on"""
+    return {"k": k, "deps": list(deps),
+            "nest": {"consumed": {"skipIf": f"=v{v}", "keep": [k, v]},
+                     "items": [{"inputs": {"x": v}}, "tail"]}}
+
+
+def jsonable_spec(spec):
+    return None if spec is None else copy.deepcopy(spec)
+
+
 def run_history(hist, observe_each=True) -> Run:
     from koreo import cache, registry
     n = hist["n"]
     hashes = hist.get("hashes") or list(range(n))
-    names = [mk_name(i, hashes[i]) for i in range(n)]
-    res = [registry.Resource(resource_type=K, name=names[i]) for i in range(n)]
-    index = {f"r{i}": i for i in range(n)}
+    # key i = (kind i mod 2, name r<i div 2>): the two kinds share their names; one Name object (one hash) per name
+    name_objs = [mk_name(j, hashes[j]) for j in range((n + 1) // 2)]
+    names = [name_objs[i // 2] for i in range(n)]
+    res = [registry.Resource(resource_type=kind_of(i), name=names[i]) for i in range(n)]
     out = Run()
     clock = Clock()
     gens = [0] * n
     in_driver = [True]
+    pristine = {}          # key -> deep copy of the spec that was offered for the cached version
+    offering = [None]      # deep copy of the spec of the offer in progress
 
     def idx(r):
-        return index[str.__str__(r.name)]
+        return 2 * int(str.__str__(r.name)[1:]) + KINDS.index(r.resource_type)
 
     async def preparer(key, spec):
         k = spec["k"]
-        deps = spec["deps"]
+        # (1) what did we receive?  every (re-)preparation must get the spec that was offered for this version
+        if in_driver[0]:
+            pristine[k] = offering[0]
+        if spec != pristine.get(k):
+            out.problems.append(("a (re-)preparation received a spec that differs from the one offered for the "
+                                 "cached version", [k, jsonable_spec(spec), jsonable_spec(pristine.get(k))]))
+        deps = list(spec["deps"])
         seen = [[d, gens[d]] for d in deps]
         gens[k] += 1
         if not in_driver[0]:
             out.reprepares += 1
+        # (2) behave like koreo's real preparers (resource_function/prepare.py pops keys out of nested
+        # overlay specs): consume the copy we were given, deeply
+        spec["nest"]["consumed"].pop("skipIf", None)
+        spec["nest"]["items"].append("seen-by-preparer")
+        spec["nest"]["items"][0]["inputs"] = None
+        spec.pop("nest")
         return ({"k": k, "seen": seen}, [res[d] for d in deps] or None)
+
+    def check_cached_spec(i, c):
+        if c is not None and c.spec != pristine.get(i):
+            out.problems.append(("the spec kept in the cache entry is no longer the one that was offered",
+                                 [i, jsonable_spec(c.spec), jsonable_spec(pristine.get(i))]))
 
     orig_notify = registry.notify_subscribers
 
@@ -139,7 +193,8 @@ def run_history(hist, observe_each=True) -> Run:
         keys = []
         for i in range(n):
             r = res[i]
-            c = cache.get_resource_system_data_from_cache(K, names[i])
+            c = cache.get_resource_system_data_from_cache(kind_of(i), names[i])
+            check_cached_spec(i, c)
             q = registry._SUBSCRIPTION_QUEUES.get(r)
             if q is not None and q._unfinished_tasks != len(q._queue):
                 out.problems.append(("harness: _unfinished_tasks differs from the number of queued items",
@@ -157,16 +212,8 @@ def run_history(hist, observe_each=True) -> Run:
         return {"keys": keys, "gens": list(gens), "clock": clock.t, "nready": len(loop._ready)}
 
     def idle(loop):
-        if len(loop._ready):
-            return False
-        for i in range(n):
-            q = registry._SUBSCRIPTION_QUEUES.get(res[i])
-            p = cache._PREPARE_TIMES.get(res[i])
-            if q is not None:
-                for e in q._queue:
-                    if isinstance(e, registry.Kill) or p is None or e.event_time > p:
-                        return False
-        return True
+        # nothing is scheduled: without a further operation nothing will ever run again
+        return len(loop._ready) == 0
 
     async def main():
         loop = asyncio.get_running_loop()
@@ -179,14 +226,16 @@ def run_history(hist, observe_each=True) -> Run:
                 try:
                     if op[0] == "offer":
                         _, k, v, deps = op
-                        await cache.prepare_and_cache(K, preparer, {"name": names[k], "resourceVersion": str(v)},
-                                                      {"k": k, "deps": list(deps)})
+                        spec = make_spec(k, v, deps)
+                        offering[0] = copy.deepcopy(spec)
+                        await cache.prepare_and_cache(kind_of(k), preparer,
+                                                      {"name": names[k], "resourceVersion": str(v)}, spec)
                     elif op[0] == "delete":
                         k = op[1]
-                        had = cache.get_resource_from_cache(K, names[k]) is not None
+                        had = cache.get_resource_from_cache(kind_of(k), names[k]) is not None
                         if had:
                             gens[k] += 1
-                        await cache.delete_from_cache(K, names[k])
+                        await cache.delete_from_cache(kind_of(k), names[k])
                     else:
                         in_driver[0] = False
                         await asyncio.sleep(0)
@@ -360,6 +409,10 @@ def regression_bases():
     yield [["offer", 0, 1, [1]], ["offer", 0, 2, []], ["offer", 0, 3, [2]], ["offer", 2, 1, []], ["offer", 1, 1, []]]
     # delete twice / delete then offer without dependencies then with
     yield [["offer", 0, 1, [2]], ["delete", 0], ["delete", 0], ["offer", 0, 2, []], ["offer", 0, 3, [2]]]
+    # two KINDS sharing a name (keys 0 and 1 are kind A / kind B of name r0): a dependency of one changes and
+    # the other one is offered right away; nothing of the first may be keyed by the bare name
+    yield [["offer", 2, 1, []], ["offer", 0, 1, [2]], ["offer", 2, 2, []], ["offer", 1, 1, []], ["offer", 2, 3, []]]
+    yield [["offer", 3, 1, []], ["offer", 1, 1, [3]], ["offer", 0, 1, [3]], ["offer", 3, 2, []], ["delete", 0]]
 
 
 def gen_histories(ctx: Ctx):
@@ -368,10 +421,10 @@ def gen_histories(ctx: Ctx):
         yield c, "corpus"
     # regression shapes: every placement of 0..3 yields after each op but the last
     for base in regression_bases():
-        n = 3
+        n = 1 + max(max([op[1]] + (op[3] if op[0] == "offer" else [])) for op in base)
         top = 3 if not ctx.quick() else 2
         for ys in itertools.product(range(top + 1), repeat=len(base) - 1):
-            yield {"n": n, "hashes": [1, 2, 3], "ops": with_yields(base, list(ys) + [0])}, "regression"
+            yield {"n": max(n, 3), "hashes": [1, 2, 3, 4], "ops": with_yields(base, list(ys) + [0])}, "regression"
     # random histories, random yields
     nrand = 1200 if ctx.quick() else 8000
     for _ in range(nrand):
